@@ -440,3 +440,11 @@ package client
 // The application's handlers: callbacks into code outside the repository.
 //@ type Handler
 //@   callbacks
+
+// ---------------------------------------------------------------------------------------
+// C15: the type table. The payload object made for a type code reports that code (its Type method
+// is read from the source), so a message written with its payload's type code is decoded into a
+// payload of the same type; an unknown code yields nil.
+//@ func PayloadForType
+//@   serves C15
+//@   ensures same_code: [C15] result != nil ==> PayloadType(result) == t && fresh(ival(result))
